@@ -472,13 +472,23 @@ def _ref_policy(ctx: Ctx, sl):
                             isinstance(e.func.value, ast.Compare):
                         cmp_ = e.func.value
                         l = cmp_.left
-                        if isinstance(l, ast.Subscript) and u(l.value) == inp and u(l.slice) == "(..., slice(1, None, None))" or \
-                                (isinstance(l, ast.Subscript) and u(l) == f"{inp}[..., 1:]"):
+                        # which of the columns (token, start, end) the slice `input[..., k:]` / `input[..., k]` covers
+                        cols_ = None
+                        if isinstance(l, ast.Subscript) and u(l.value) == inp and isinstance(l.slice, ast.Tuple) and len(l.slice.elts) == 2 \
+                                and isinstance(l.slice.elts[0], ast.Constant) and l.slice.elts[0].value is Ellipsis:
+                            k_ = l.slice.elts[1]
+                            if isinstance(k_, ast.Slice) and k_.step is None and k_.upper is None and (k_.lower is None or isinstance(k_.lower, ast.Constant)):
+                                cols_ = list(range(k_.lower.value if k_.lower is not None else 0, 3))
+                            elif isinstance(k_, ast.Slice) and k_.step is None and isinstance(k_.upper, ast.Constant) and (k_.lower is None or isinstance(k_.lower, ast.Constant)):
+                                cols_ = list(range(k_.lower.value if k_.lower is not None else 0, k_.upper.value))
+                        if cols_ is not None and set(cols_) <= {1, 2} and cols_:
                             op = {ast.GtE: ">=", ast.Gt: ">", ast.Lt: "<", ast.LtE: "<="}.get(type(cmp_.ops[0]))
                             r = ex.term(cmp_.comparators[0], depth + 1)
                             if op:
-                                return ("and" if e.func.attr == "all" else "or", ("cmp", op, ("leaf", "S"), r),
-                                        ("cmp", op, ("leaf", "E"), r))
+                                parts = [("cmp", op, ("leaf", {1: "S", 2: "E"}[c_]), r) for c_ in cols_]
+                                if len(parts) == 1:
+                                    return parts[0]
+                                return ("and" if e.func.attr == "all" else "or", parts[0], parts[1])
                     return None
 
                 ex = MM.Extractor(rd, leaf_of_def, leaf_of_expr, term_hook=term_hook, cond_hook=cond_hook)
